@@ -2,9 +2,9 @@ package c20
 
 // Part nine: SEVERAL loads issued from ONE form of a loading file.
 //
-// root/multi.lisp, root/sub/multi.lisp and root/sub/deep/multi.lisp exist on
-// disk (and in the MapFS).  Each evaluates its own mark and then ONE guarded
-// top-level form, the one the case names, which performs 2..3 loads without a
+// For every form below root/m-<form>.lisp, root/sub/m-<form>.lisp and
+// root/sub/deep/m-<form>.lisp exist on disk (and in the MapFS).  Each evaluates
+// its own mark and then ONE top-level form which performs 2..3 loads without a
 // freshly evaluated call expression per load: a builtin applies the load
 // primitive to the elements of a list of locations
 //
@@ -19,18 +19,17 @@ package c20
 // chain.go.  A case is
 //
 //	library configuration x entry point {env.LoadFile, env.LoadFileContext, (load-file ...) from a string}
-//	  -> <dir>/multi.lisp                       dir in {root, sub, sub/deep}
-//	  -> form x primitive
+//	  -> <dir>/m-<form>.lisp                    dir in {root, sub, sub/deep}, form = shape x primitive
 //	  -> a sequence of 2..3 locations: the first over every directory x the
 //	     spellings of chain.go plus the bare sibling, "../" sibling and child
 //	     directory; the later ones a sibling, a "../" sibling, a subdirectory or
 //	     a plain file of each directory.  Every directory holds its own in.lisp,
 //	     so a location resolved against the directory of a file loaded EARLIER
-//	     from the same form (instead of the directory of multi.lisp) yields a
+//	     from the same form (instead of the directory of the loading file) yields a
 //	     different mark, a refusal, or an outside file.
 //
 // Model: every location of the sequence is resolved from the true location of
-// multi.lisp (the file in which the call expression is written), whatever was
+// the loading file (in which the call expression is written), whatever was
 // loaded before it from the same form.  An error ends the form, so the sequence
 // is judged up to the first load that serves nothing.  Oracle: the mark
 // evaluated at every position against the model verdict of that position,
@@ -51,7 +50,6 @@ import (
 
 const (
 	tagMulti  = "multi" // inside; content performs the loads of a one-form case
-	symMForm  = "c20-m?"
 	symMAt    = "c20-m-at?"
 	symMLocs  = "c20-mlocs"
 	symMLoc   = "c20-mloc"
@@ -96,15 +94,15 @@ var oneShapes = []oneShape{
 	{"function-body-map", "(progn (defun c20-mf (ls) (map 'list {F} ls)) (c20-mf {L}))", false},
 }
 
-// oneForm is a (shape, primitive) pair; ID is the guard written in the file.
+// oneForm is a (shape, primitive) pair; ID names it in artefacts and (File) on disk.
 type oneForm struct {
 	ID    string
 	Shape string
 	Prim  int
 }
 
-// oneForms lists the forms of a multi.lisp file in file order: per primitive
-// the separate-forms baseline first, then the shapes in table order.
+// oneForms lists the forms: per primitive the separate-forms baseline first,
+// then the shapes in table order.
 func oneForms() []oneForm {
 	var out []oneForm
 	for pi, p := range onePrims {
@@ -119,29 +117,52 @@ func oneForms() []oneForm {
 	return out
 }
 
-// multiContent is the text of a multi.lisp file after its mark.
-func multiContent() string {
-	var b strings.Builder
-	shapes := map[string]string{}
-	for _, s := range oneShapes {
-		shapes[s.ID] = s.Tpl
-	}
-	for _, f := range oneForms() {
-		fn := onePrims[f.Prim].Fn
-		if f.Shape == oneSepID {
-			for i := 0; i < oneMaxLen; i++ {
-				n := strconv.Itoa(i)
-				b.WriteString("(if (" + symMAt + " \"" + f.ID + "\" " + n + ") (" + fn + " (" + symMLoc + " " + n + ")) ())\n")
-			}
-			continue
-		}
-		form := strings.ReplaceAll(strings.ReplaceAll(shapes[f.Shape], "{F}", fn), "{L}", "("+symMLocs+")")
-		b.WriteString("(if (" + symMForm + " \"" + f.ID + "\") " + form + " ())\n")
-	}
-	return b.String()
+// File is the name of the loading file that holds the form (one per directory).
+func (f *oneForm) File() string {
+	return "m-" + strings.NewReplacer(":", "-", "?", "p").Replace(f.ID) + ".lisp"
 }
 
-// oneFormBuiltins are the host builtins the multi.lisp files use.
+// oneLayout: every form's loading file in every directory.
+func oneLayout() []layoutEnt {
+	var out []layoutEnt
+	for _, d := range oneDirs {
+		for _, f := range oneForms() {
+			out = append(out, layoutEnt{"root/" + fileIn(d, f.File()), kFile, tagMulti + ":" + f.ID})
+		}
+	}
+	return out
+}
+
+// multiContent is the text of form id's loading file after its mark: the form,
+// as a genuine top-level form.  The separate-forms baseline is one top-level
+// form per load (the third only when the case has a third location).
+func multiContent(id string) string {
+	f := oneFormByID(id)
+	if f == nil {
+		panic("harness: unknown one-form id " + id)
+	}
+	fn := onePrims[f.Prim].Fn
+	if f.Shape == oneSepID {
+		var b strings.Builder
+		for i := 0; i < oneMaxLen; i++ {
+			n := strconv.Itoa(i)
+			call := "(" + fn + " (" + symMLoc + " " + n + "))"
+			if i >= 2 {
+				call = "(if (" + symMAt + " " + n + ") " + call + " ())"
+			}
+			b.WriteString(call + "\n")
+		}
+		return b.String()
+	}
+	for _, s := range oneShapes {
+		if s.ID == f.Shape {
+			return strings.ReplaceAll(strings.ReplaceAll(s.Tpl, "{F}", fn), "{L}", "("+symMLocs+")") + "\n"
+		}
+	}
+	panic("harness: unknown one-form shape " + f.Shape)
+}
+
+// oneFormBuiltins are the host builtins the m-<form>.lisp files use.
 func (w *worker) oneFormBuiltins() []lisp.LBuiltinDef {
 	goload := func(env *lisp.LEnv, withCtx bool, loc *lisp.LVal) *lisp.LVal {
 		if loc.Type != lisp.LString {
@@ -153,11 +174,8 @@ func (w *worker) oneFormBuiltins() []lisp.LBuiltinDef {
 		return env.LoadFile(loc.Str)
 	}
 	defs := []lisp.LBuiltinDef{
-		bdef{symMForm, lisp.Formals("id"), func(env *lisp.LEnv, args *lisp.LVal) *lisp.LVal {
-			return lisp.Bool(w.mform != "" && args.Cells[0].Str == w.mform)
-		}},
-		bdef{symMAt, lisp.Formals("id", "i"), func(env *lisp.LEnv, args *lisp.LVal) *lisp.LVal {
-			return lisp.Bool(w.mform != "" && args.Cells[0].Str == w.mform && args.Cells[1].Int < len(w.mlocs))
+		bdef{symMAt, lisp.Formals("i"), func(env *lisp.LEnv, args *lisp.LVal) *lisp.LVal {
+			return lisp.Bool(args.Cells[0].Int < len(w.mlocs))
 		}},
 		bdef{symMLocs, lisp.Formals(), func(env *lisp.LEnv, args *lisp.LVal) *lisp.LVal {
 			cells := make([]*lisp.LVal, len(w.mlocs))
@@ -221,8 +239,8 @@ func oneInSpelling(dir, kind int) string {
 	return plain
 }
 
-func oneMainSpelling(dir, kind int) string {
-	return strings.TrimSuffix(oneInSpelling(dir, kind), "in.lisp") + "multi.lisp"
+func oneMainSpelling(dir, kind int, f *oneForm) string {
+	return strings.TrimSuffix(oneInSpelling(dir, kind), "in.lisp") + f.File()
 }
 
 func appendUniq(s []string, x string) []string {
@@ -234,7 +252,7 @@ func appendUniq(s []string, x string) []string {
 	return append(s, x)
 }
 
-// oneAlphabets returns the location alphabets of a multi.lisp in directory dir
+// oneAlphabets returns the location alphabets of a loading file in directory dir
 // whose way back to the root is `back`: later = the bare sibling, the "../"
 // sibling, the child directory's file and the plain file of every directory;
 // first = later plus every directory's file under the other spellings.
@@ -258,10 +276,8 @@ func oneAlphabets(dir int, back string) (first, later []string) {
 type oneItem struct {
 	cfg   int
 	entry string // entry-point primitive
-	dir   int    // directory of the multi.lisp file
+	dir   int    // directory of the loading file
 	spell int    // spelling of the entry location
-	req   string // the entry location
-	L0    string // true location of the multi.lisp file according to the model
 	seq   []string
 }
 
@@ -271,6 +287,7 @@ func (sb *sandbox) genOneItems(cfgs []histCfg, cwd *node, thorough bool) []oneIt
 	if thorough {
 		spells = []int{0, 1}
 	}
+	rep := &oneForms()[0] // the loading files of a directory are siblings: any of them tells whether the spelling is served
 	var out []oneItem
 	for length := 2; length <= oneMaxLen; length++ {
 		for ci := range cfgs {
@@ -279,8 +296,7 @@ func (sb *sandbox) genOneItems(cfgs []histCfg, cwd *node, thorough bool) []oneIt
 			for _, e := range chainEntryPrims {
 				for dir := range oneDirs {
 					for _, sp := range spells {
-						req := loaderLoc(fam, oneMainSpelling(dir, sp))
-						L0, ok := sb.chainTrueLoc(cfg, cwd, "", req)
+						L0, ok := sb.chainTrueLoc(cfg, cwd, "", loaderLoc(fam, oneMainSpelling(dir, sp, rep)))
 						if !ok {
 							continue // the model does not serve the loading file under this spelling (no links in a MapFS)
 						}
@@ -293,7 +309,7 @@ func (sb *sandbox) genOneItems(cfgs []histCfg, cwd *node, thorough bool) []oneIt
 						if thorough {
 							a1 = first
 						}
-						base := oneItem{cfg: ci, entry: e, dir: dir, spell: sp, req: req, L0: L0}
+						base := oneItem{cfg: ci, entry: e, dir: dir, spell: sp}
 						for _, x := range a0 {
 							for _, y := range a1 {
 								if length == 2 {
@@ -320,14 +336,14 @@ func (sb *sandbox) genOneItems(cfgs []histCfg, cwd *node, thorough bool) []oneIt
 // ---------------------------------------------------------------------------
 // running and judging
 
-// runOneForm enters the multi.lisp file at req through the entry point and
+// runOneForm enters the loading file at req through the entry point and
 // returns the marks in evaluation order.
-func (w *worker) runOneForm(cfg *histCfg, entry, req, form string, locs []string) (marks []string, panicked string) {
+func (w *worker) runOneForm(cfg *histCfg, entry, req string, locs []string) (marks []string, panicked string) {
 	lib := w.libFor(cfg.Part, cfg.Root)
 	w.marks = w.marks[:0]
 	w.asked = w.asked[:0]
 	w.chain = nil
-	w.mform, w.mlocs = form, locs
+	w.mlocs = locs
 	env := w.env
 	env.Runtime.Library = lib
 	func() {
@@ -346,7 +362,7 @@ func (w *worker) runOneForm(cfg *histCfg, entry, req, form string, locs []string
 			env.LoadString("test", "(load-file \""+req+"\")")
 		}
 	}()
-	w.mform, w.mlocs = "", nil
+	w.mlocs = nil
 	if len(w.env.Runtime.Stack.Frames) != 0 {
 		w.freshEnv()
 	}
@@ -354,9 +370,9 @@ func (w *worker) runOneForm(cfg *histCfg, entry, req, form string, locs []string
 }
 
 // oneModel is the model of an item: one verdict per level (0 = the entry load
-// of multi.lisp, k = the k-th load of the form) and whether the case is
+// of the loading file, k = the k-th load of the form) and whether the case is
 // non-trivial: some load after the first is served while an EARLIER load of the
-// form was served from a directory other than that of multi.lisp.
+// form was served from a directory other than that of the loading file.
 type oneModel struct {
 	vds        []verdict
 	nontrivial bool
@@ -403,7 +419,7 @@ func (w *worker) judgeOneForm(cfg *histCfg, cwd *node, m *oneModel, entry, req, 
 	sb := w.sb
 	dirfs := cfg.Part == "fs" && followsLinksOut(cfg.Root.Spelling)
 	p := onePart(cfg)
-	marks, panicked := w.runOneForm(cfg, entry, req, f.ID, seq)
+	marks, panicked := w.runOneForm(cfg, entry, req, seq)
 	var res oneResult
 	res.marks = marks
 	res.got = fmt.Sprintf("files evaluated, in order: %v", marks)
@@ -443,13 +459,15 @@ func (w *worker) judgeOneForm(cfg *histCfg, cwd *node, m *oneModel, entry, req, 
 		res.expected = "nothing evaluated after an error ended the form, at most one file per load"
 		return res
 	}
-	if baseline != nil {
-		if got, want := strings.Join(marks, ","), strings.Join(*baseline, ","); got != want {
+	if baseline != nil && len(marks) > 0 && len(*baseline) > 0 {
+		// position 0 is the loading file's own mark (one file per form)
+		bl := (*baseline)[1:]
+		if got, want := strings.Join(marks[1:], ","), strings.Join(bl, ","); got != want {
 			k := 0
-			for k < len(marks) && k < len(*baseline) && marks[k] == (*baseline)[k] {
+			for k+1 < len(marks) && k < len(bl) && marks[k+1] == bl[k] {
 				k++
 			}
-			res.kind, res.level = "form-dependent-outcome", k
+			res.kind, res.level = "form-dependent-outcome", k+1
 			res.expected = "the files the same loads evaluate when each is a separate top-level form of the same file: [" + want + "]"
 			res.class = "oneform:" + p + ":form-dependent-outcome:form=" + f.Shape
 		}
@@ -493,7 +511,7 @@ func runOneFormKase(sb *sandbox, cwd *node, k kase) (kind, class, expected, got 
 	var base *[]string
 	if f.Shape != oneSepID {
 		sep := oneFormByID(oneSepID + ":" + onePrims[f.Prim].Prim)
-		b, _ := w.runOneForm(cfg, k.Entry, req, sep.ID, seq)
+		b, _ := w.runOneForm(cfg, k.Entry, rawDir(req)+"/"+sep.File(), seq)
 		base = &b
 	}
 	res := w.judgeOneForm(cfg, cwd, &m, k.Entry, req, L0, f, seq, base)
@@ -521,19 +539,19 @@ func (d *drv) runOneForms(tot map[string]int64, info map[string]int64, mu *sync.
 	r.Bound("oneform_shapes", shapeTexts)
 	r.Bound("oneform_primitives", []string{"load-file", symGoLoad + " -> env.LoadFile", symGoLoadCtx + " -> env.LoadFileContext"})
 	r.Bound("oneform_entry_points", chainEntryPrims)
-	r.Bound("oneform_loading_files", []string{"root/multi.lisp", "root/sub/multi.lisp", "root/sub/deep/multi.lisp"})
+	r.Bound("oneform_loading_files", []string{"root/m-<form>.lisp", "root/sub/m-<form>.lisp", "root/sub/deep/m-<form>.lisp"})
 	r.Bound("oneform_sequence_lengths", []int{2, oneMaxLen})
-	r.Bound("oneform_first_location_alphabet(from sub/multi.lisp)", f0)
-	r.Bound("oneform_later_location_alphabet(from sub/multi.lisp)", l0)
+	r.Bound("oneform_first_location_alphabet(from root/sub)", f0)
+	r.Bound("oneform_later_location_alphabet(from root/sub)", l0)
 	if r.Thorough() {
 		r.Bound("oneform_sequences", "length 2: first x first; length 3: first x first x later; loading file entered under its plain spelling and through a directory symlink")
 	} else {
 		r.Bound("oneform_sequences", "length 2: first x later; length 3: later x later x later; loading file entered under its plain spelling")
 	}
-	r.Rule("one-form family: every (library configuration, entry point, multi.lisp directory, location sequence) x every (form shape, load primitive). " +
-		"Non-trivial = per the model some load after the first is served although an earlier load of the same form was served from a directory other than that of multi.lisp " +
+	r.Rule("one-form family: every (library configuration, entry point, directory of the loading file, location sequence) x every (form shape, load primitive). " +
+		"Non-trivial = per the model some load after the first is served although an earlier load of the same form was served from a directory other than that of the loading file " +
 		"(a base directory taken from the earlier file would name a different file); distinct by configuration, entry point, loading file and sequence")
-	r.Assume("part nine: every location of a sequence is resolved from the true location of the multi.lisp file in which the call expression is written, whatever the same form loaded before; " +
+	r.Assume("part nine: every location of a sequence is resolved from the true location of the file in which the call expression is written, whatever the same form loaded before; " +
 		"an error ends the form, so a sequence is judged up to its first load that serves nothing; map, select and all? apply their function to the elements first to last " +
 		"(foldl by data dependence; foldr last to first, it is given the reversed list)")
 	var workers []*worker
@@ -546,15 +564,22 @@ func (d *drv) runOneForms(tot map[string]int64, info map[string]int64, mu *sync.
 	}, func(w *worker, i int64) {
 		it := &items[i]
 		cfg := &cfgs[it.cfg]
-		m := sb.oneModelOf(cfg, cwd, it.req, it.L0, it.seq)
-		w.traces++
-		if m.nontrivial {
-			r.Nontrivial("oneform|" + cfg.ID + "|" + it.entry + "|" + sb.template(it.req) + "|" + strings.Join(it.seq, ","))
-		}
+		fam := scopeFamily(sb, cfg)
 		var baselines [3]*[]string
 		for fi := range forms {
 			f := &forms[fi]
-			res := w.judgeOneForm(cfg, cwd, &m, it.entry, it.req, it.L0, f, it.seq, baselines[f.Prim])
+			req := loaderLoc(fam, oneMainSpelling(it.dir, it.spell, f))
+			L0, ok := sb.chainTrueLoc(cfg, cwd, "", req)
+			if !ok {
+				r.Violate("c20", "harness:oneform-loading-file", nil, "the model serves "+sb.template(req), "not served", "harness self-check")
+				return
+			}
+			m := sb.oneModelOf(cfg, cwd, req, L0, it.seq)
+			w.traces++
+			if fi == 0 && m.nontrivial {
+				r.Nontrivial("oneform|" + cfg.ID + "|" + it.entry + "|" + sb.template(rawDir(req)) + "|" + strings.Join(it.seq, ","))
+			}
+			res := w.judgeOneForm(cfg, cwd, &m, it.entry, req, L0, f, it.seq, baselines[f.Prim])
 			if f.Shape == oneSepID {
 				mk := res.marks
 				baselines[f.Prim] = &mk
@@ -577,12 +602,12 @@ func (d *drv) runOneForms(tot map[string]int64, info map[string]int64, mu *sync.
 			if n > 3 {
 				continue
 			}
-			steps := []chainStep{{it.entry, sb.template(it.req)}}
+			steps := []chainStep{{it.entry, sb.template(req)}}
 			for _, l := range it.seq {
 				steps = append(steps, chainStep{onePrims[f.Prim].Prim, sb.template(l)})
 			}
-			k := kase{Part: "oneform", Phase: rflPhases[0].ID, Root: cfg.ID, Ctx: f.ID, Entry: it.entry, Loc: sb.template(it.req),
-				RootSpelling: cfg.Root.Spelling, Loader: sb.template(it.L0), Model: res.desc, Targets: it.seq, Chain: steps, Step: res.level}
+			k := kase{Part: "oneform", Phase: rflPhases[0].ID, Root: cfg.ID, Ctx: f.ID, Entry: it.entry, Loc: sb.template(req),
+				RootSpelling: cfg.Root.Spelling, Loader: sb.template(L0), Model: res.desc, Targets: it.seq, Chain: steps, Step: res.level}
 			rep := 0
 			for j := 0; j < 5; j++ {
 				k2, c2, _, _, err := runKase(sb, cwd, k)
@@ -601,7 +626,7 @@ func (d *drv) runOneForms(tot map[string]int64, info map[string]int64, mu *sync.
 				}
 			}
 			r.Violate("c20", res.class, k, sb.template(res.expected), sb.template(res.got),
-				"one form of "+sb.template(it.L0)+" (entered by "+it.entry+"): "+form)
+				"the form of "+sb.template(L0)+" (entered by "+it.entry+"): "+form)
 		}
 	})
 	for _, w := range workers {
